@@ -49,7 +49,7 @@ def _single(draw, tier):
         spec = draw(gen.sd_circuit(input_types=gen.ALL_INPUTS, **kw))
     else:
         spec = draw(gen.sd_circuit(input_types=gen.ALL_INPUTS, cx=True, **kw))
-    return dict(cfg, bases=[_unlearn(draw, spec)], pipe=[{"op": "base", "i": 0}], family="single")
+    return dict(cfg, bases=[gen.unlearn(draw, spec)], pipe=[{"op": "base", "i": 0}], family="single")
 
 
 @st.composite
